@@ -31,14 +31,21 @@ CLAIMED = {
  "C08": dict(tech="TLC trace validation (TraceCacheCrash.tla) of the answers of a fresh disk channel reopened on directory images frozen before every file mutation of live writers (hook point store.fs), plus Cache.tla as design model",
              text="The disk cache directory is copied just before every file-system mutation (segment create/append/seal, snapshot tmp create/append/rename, per-file removal during reset and collector passes) of seeded write sequences; a fresh StoreChannel is opened on each image (and on a quarter of them with one byte of a closed segment altered, crc verification on); TLC judges: reported range fully readable, every served byte is the source byte of that offset, validity only inside range/snapshot, offered snapshot complete, altered segment never served.",
              note="Process death with coherent page cache; no reordering of unsynced writes.", ref="4 C08"),
+ "C03": dict(tech="TLA+ design model of the snapshot pipeline (FullSync.tla) model-checked with TLC + TLC trace validation (TraceFullSync.tla) of real RedisOutput.Send runs on snapshots produced by an independent RDB encoder",
+             text="An independent encoder (harness/rdbgen) serialises seeded abstract datasets in every list/set/zset/hash/string encoding of the property (ziplist and listpack integers of every width and sign, 5-byte prevlen, unknown-length ziplists, LZF, quicklist v1/v2 incl. plain nodes, intsets, zipmaps) for RDB versions 6-12; each snapshot is replayed by the real code into the fake target under restore on/off, bulk limits, parallelism, pipe sizes, chunking threshold, DB map/blacklist; TLC judges the final typed keyspace against the encoded dataset (type, content, order, scores, absolute expiry, expired keys gone, nothing invented) and that every RESTORE payload was serialisation+valid footer.",
+             note="rdbgen is trusted base; streams/modules/functions/hash-field-TTL encodings not generated; 3 s expiry tolerance.", ref="4 C03"),
+ "C04": dict(tech="TLC on FullSync.tla (parser/target errors and cancellation at every instant, pipe capacities) + TLC trace validation of real fault-injected snapshot replays and of a loader-level enumeration of damaged snapshots",
+             text="TLC checks 'checkpoint implies every entry applied' over all interleavings of parser, distributor, workers, error and cancel events. On the real code: random truncations and byte alterations of checksummed snapshots, a target error at a random data request, and cancellation with the window held open (reply of a data request withheld until all bytes are parsed, then cancel); every truncation length and every k-th alteration of every byte is fed to the real parser. TLC judges: damaged input => error and no checkpoint, checkpoint or ok => complete dataset.",
+             note="Single-byte alterations only; parser may allocate up to corrupted lengths (slowness retried, not reported).", ref="4 C04"),
+ "C20": dict(tech="TLC trace validation (TraceFullSync.tla policy rules) of real snapshot replays into a pre-populated fake target, FullSync.tla as design model",
+             text="Half of the snapshot keys pre-exist on the target with same-type or other-type values, with and without expiry; the three policies are run on both replay paths incl. chunked values; TLC judges replace (exactly the snapshot value and expiry), ignore (prior key untouched, nothing merged, replay succeeds) and error (replay stops, clashing keys unmodified).",
+             note="Plain replay path only; the bidirectional snapshot path is exercised by C13/C14 checks.", ref="4 C20"),
  "C09": dict(tech="TLC on Replay.tla (TxnMode) + TLC trace validation of real transactional runs with crash enumeration",
              text="For every source MULTI/EXEC group the target must apply all of its data commands in one EXEC block that also carries a position >= the group's EXEC; no stored or returned resume position may lie inside a group, at any crash point.",
              note="Standalone target with real MULTI/EXEC semantics modelled in TLA+.", ref="4 C09"),
 }
 
 PENDING = {
- "C03": "check not built yet (FullSync.tla + rdbgen planned, DESIGN 4 C03)",
- "C04": "check not built yet (FullSync.tla fault model, DESIGN 4 C04)",
  "C06": "check not built yet (Resync.tla, DESIGN 4 C06)",
  "C13": "check not built yet (Bisync.tla, DESIGN 4 C13)",
  "C14": "check not built yet (BisyncFrontier.tla, DESIGN 4 C14)",
@@ -46,7 +53,6 @@ PENDING = {
  "C17": "check not built yet (CkptMaint.tla, DESIGN 4 C17)",
  "C18": "check not built yet (Bisync.tla unit builder, DESIGN 4 C18)",
  "C19": "check not built yet (ClusterReplay.tla, DESIGN 4 C19)",
- "C20": "check not built yet (FullSync.tla policies, DESIGN 4 C20)",
 }
 
 def commits():
